@@ -7,6 +7,7 @@
   (C05_prolog).
 -/
 import PvModel.Proofs.RelCountApp
+import PvModel.Proofs.RelCountSplit
 import PvModel.Props.C06
 namespace Pv
 open Strm Goal State Term
@@ -68,6 +69,51 @@ theorem C24_append_functional (ord : Order) (ho : OrderOK ord) (pf M : Nat) (d :
   rw [hz] at this
   exact List.eq_nil_of_length_eq_zero (by simpa using this)
 
+/-- a strictly increasing list of positions `≤ n` has at most `n + 1` entries -/
+theorem C24_increasing_bounded : ∀ (ps : List Nat) (m n : Nat), ps.Pairwise (· < ·) → (∀ i ∈ ps, m ≤ i ∧ i ≤ n) →
+    ps.length ≤ n + 1 - m
+  | [], _, _, _, _ => Nat.zero_le _
+  | p :: ps, m, n, pw, hb => by
+    have hp := hb p List.mem_cons_self
+    have pw' := List.pairwise_cons.1 pw
+    have ih := C24_increasing_bounded ps (p + 1) n pw'.2 (fun i hi => ⟨pw'.1 i hi, (hb i (List.mem_cons_of_mem _ hi)).2⟩)
+    simp only [List.length_cons]
+    omega
+
+theorem C24_zip2_length {α β : Type} {R : α → β → Prop} : ∀ {as : List α} {bs : List β}, Zip2 R as bs → as.length = bs.length
+  | _, _, .nil => rfl
+  | _, _, .cons _ t => by simp only [List.length_cons, C24_zip2_length t]
+
+/-- `append(l, s, ls)` IN ENUMERATING MODE — the THIRD argument has a length `n` the start state determines (`l`, `s`
+    any terms, bound or not): the engine terminates, and its answers are — as a multiset — exactly ONE STATE PER
+    SPLIT POSITION: `ps` lists the positions `i ≤ n` at which some described valuation splits `ls` into `l` (the
+    first `i` elements) and `s`, in increasing order; the `i`-th answer of the reference list describes exactly the
+    valuations of the start state that split at `ps[i]` (`SplitAt`; the position is determined by the valuation,
+    `splitAt_unique`, so no ground split is answered twice); hence at most `n + 1` answers.
+    Assumes no FUEL-poisoned answer (see Proofs/RelCount.lean). -/
+theorem C24_append_one_per_split (ord : Order) (ho : OrderOK ord) (pf M : Nat) (d : Bool) (n : Nat) (l s ls : Term) (a : State)
+    (bl : Below a.nextVar l) (bs : Below a.nextVar s) (bls : Below a.nextVar ls)
+    (hp : a.panic.isSome = false) (hi : RInv a) (hd : DNF a) (hlen : ListLen n ls a)
+    (hnf : ∀ b, Big (defs ord) (.call ⟨.append, [l, s, ls], d⟩) a b → b.panic.isSome = false) :
+    ∃ (ys : List State) (ps : List Nat) (k : Nat) (zs : List State),
+      drainF (solveAt (defs ord) pf (M + 1)) k (solveAt (defs ord) pf (M + 1) (.call ⟨.append, [l, s, ls], d⟩) a) = some zs ∧
+      ys.Perm zs ∧ ps.Pairwise (· < ·) ∧
+      (∀ i, i ∈ ps ↔ (i ≤ n ∧ ∃ γ, StateSem γ a ∧ SplitAt l s ls i γ)) ∧
+      Zip2 (fun b i => Describes a (SplitAt l s ls i) b) ys ps ∧
+      zs.length ≤ n + 1 := by
+  obtain ⟨ys, ps, ⟨m, hm⟩, pw, mem, z⟩ := append_split_count ho d n l s ls a bl bs bls hp hi hd hlen hnf
+  obtain ⟨k, zs, hk, perm⟩ := C06_ref (defs ord) pf M m _ a ys hm
+  refine ⟨ys, ps, k, zs, hk, perm, pw, mem, z, ?_⟩
+  rw [← perm.length_eq, C24_zip2_length z]
+  exact C24_increasing_bounded ps 0 n pw (fun i hi => ⟨Nat.zero_le _, ((mem i).1 hi).1⟩)
+
+/-- two answers of the enumerating mode never share a described valuation of the start state's variables: a
+    valuation splits `ls` at one position only -/
+theorem C24_append_splits_disjoint {l s ls : Term} {i j : Nat} {a b b' : State}
+    (hb : Describes a (SplitAt l s ls i) b) (hb' : Describes a (SplitAt l s ls j) b') {γ : Subst}
+    (h : StateSem γ b) (h' : StateSem γ b') : i = j :=
+  splitAt_unique (hb.snd γ h).2 (hb'.snd γ h').2
+
 /-- a literal list has its length in every state -/
 theorem C24_listLen_literal (xs : List Term) (a : State) : ListLen xs.length (ofList xs) a := by
   intro γ _
@@ -91,6 +137,11 @@ example : (evalRef (defs Order.default) 40 (.call ⟨.member1, [.var 0, ofList [
     some [(false, Term.num 1), (false, Term.num 2)] := by decide +kernel
 example : (evalRef (defs Order.default) 40 (.call ⟨.append, [ofList [Term.num 1, Term.num 2], ofList [Term.num 3], .var 0], false⟩)
     (State.empty 1)).map (·.length) = some 1 := by decide +kernel
+/-- enumerating mode: `append(x, y, [1, 2, 3])` has the four splits, in order of the length of `x`, none poisoned -/
+example : (evalRef (defs Order.default) 60 (.call ⟨.append, [.var 0, .var 1, ofList [Term.num 1, Term.num 2, Term.num 3]], false⟩)
+    (State.empty 2)).map (fun ys => ys.map fun s => (s.panic.isSome, apply s.σ (.var 0))) =
+    some [(false, ofList []), (false, ofList [Term.num 1]), (false, ofList [Term.num 1, Term.num 2]),
+      (false, ofList [Term.num 1, Term.num 2, Term.num 3])] := by decide +kernel
 end Examples
 
 end Pv
